@@ -1349,7 +1349,7 @@ def run_module_prior(cell, seed):
                         notes["matrix_setting_closure_unchecked"] = 1
                 else:
                     val = closure(owner)
-                    got = pr_lp = prior.log_prob(val)
+                    got = prior.log_prob(val)
                     V = val.detach().numpy()
                     sd = np.sqrt(np.diagonal(V, axis1=-2, axis2=-1))
                     Rm = V / sd[..., :, None] / sd[..., None, :]
